@@ -261,6 +261,7 @@ def evaluate__instance_expression(self: XPathToken, context: ta.ContextType = No
         if context is None:
             raise self.missing_context()
 
+        context = copy(context)  # the focus of the caller's context is not the item under test
         for position, context.item in enumerate(self[0].select(context)):
             if context.axis is None:
                 context.axis = 'self'
@@ -314,6 +315,7 @@ def evaluate__treat_expression(self: XPathToken, context: ta.ContextType = None)
         if context is None:
             raise self.missing_context()
 
+        context = copy(context)  # the focus of the caller's context is not the item under test
         for position, item in enumerate(self[0].select(context)):
             context.item = item
             if context.axis is None:
